@@ -134,10 +134,10 @@ def run_mutants(registry, mutants, models, timeout_ms, seed, only=None, pid=None
                 out.append(rec)
                 continue
             idx = RepoIndex(overrides={m["path"]: msrc})
-            recs = run_functions(idx, registry, m["functions"], models, min(timeout_ms, 9000), seed, pid=pid, only=m["expect"])
+            recs = run_functions(idx, registry, m["functions"], models, min(timeout_ms, 6000), seed, pid=pid, only=m["expect"])
             _, _, failed, und, err = summarize(recs)
             rec["failed"] = [o["name"] for o in failed]
-            rec["not_proved"] = [str(n) for n, _ in und if m["expect"] in str(n)]
+            rec["not_proved"] = [str(n) for n, _ in und if m["expect"] in str(n)] + [str(n) for n, why in und if "not found in the current source" in str(why)]
             # self-test criterion: the expected obligation is no longer discharged (sat = counter-model; unknown = proof lost)
             rec["detected"] = any(m["expect"] in n for n in rec["failed"]) or bool(rec["not_proved"])
             rec["status"] = "ok" if rec["detected"] else "missed"
@@ -225,6 +225,9 @@ def main():
     tot, dis, failed, undecided, errors = summarize(recs)
     # lemmas / scans (pure python obligations: coverage scans etc.)
     extra = []
+    if P.get("lemmas"):
+        from pyvc import lemmas as _lem
+        extra.extend(_lem.prove_all())
     for fn in P.get("scans", []):
         try:
             extra.extend(fn(index, registry))
@@ -247,7 +250,7 @@ def main():
     # mutant self-test
     muts = P.get("mutants", [])
     if tier == "quick":
-        k = min(3, len(muts))
+        k = min(2, len(muts))
         import random as _r
         sel = [m["id"] for m in _r.Random(seed).sample(muts, k)] if muts else []
         mres = run_mutants(registry, muts, models, timeout_ms, seed, only=set(sel), pid=pid)
